@@ -1,2 +1,2 @@
 from . import (runtime_c, boolean_c, branching_c, guard_c, backend_c, snarkjs_c, selection_c, exit_c,  # noqa: F401
-               fixedpoint_c, array_c, snark_c, branchctx_c, hash_c, zkif_c, qaptools_c)
+               fixedpoint_c, array_c, snark_c, branchctx_c, hash_c, zkif_c, qaptools_c, pack_c)
